@@ -10,10 +10,11 @@ EXTENDS Retry, Json, IOUtils
 
 Tr == ndJsonDeserialize(IOEnv.TRACE)
 
-VARIABLES l, bad, why, hid, toks, tcpin, openfail, newtry
+VARIABLES l, bad, why, hid, toks, tcpin, openfail, newtry,
+          nest      \* number of API calls in progress (1 = only the outermost one)
 (* openfail: opening a connection (socket / connect / local address) just failed and the failure has not been
    attributed yet; newtry: token -> tries already consumed by a request that has not transmitted anything yet *)
-tvars == <<rvars, l, bad, why, hid, toks, tcpin, openfail, newtry>>
+tvars == <<rvars, l, bad, why, hid, toks, tcpin, openfail, newtry, nest>>
 xvars == <<toks, tcpin, openfail, newtry>>
 
 Rej(label) == /\ bad' = TRUE /\ why' = [line |-> l, label |-> label]
@@ -97,15 +98,17 @@ DestroyStep(s) ==
      /\ q' = DropDoneProbes([id \in DOMAIN q |-> IF id \in InflightOn(s) THEN RequeuedN(q[id], n2) ELSE q[id]])
      /\ UNCHANGED <<cfg, now, fdi, proc, oos, xvars>> /\ Acc
 
-(* a connection is closed: nothing may be left in flight on it *)
+(* a connection is closed: nothing may be left in flight on it; datagrams read from it but not yet processed are discarded *)
 HClose(e) ==
   IF e.fd \notin DOMAIN fdi \/ fdi[e.fd].srv = 0 THEN Skip
   ELSE IF OnFd(e.fd) # {} THEN Rej("c06.connection_closed_under_pending_query")
-  ELSE Skip
+  ELSE /\ proc' = [proc EXCEPT !.inbox = SelectSeq(@, LAMBDA x : x.fd # e.fd)]
+       /\ UNCHANGED <<cfg, now, srv, fdi, q, owedF, owedO, oos, xvars>> /\ Acc
+
 
 HCall(e) ==
   IF e.api = "process" THEN
-       /\ proc' = [in |-> TRUE, nonfd |-> (e.how # "fdonly"), nrecv |-> 0]
+       /\ proc' = [in |-> TRUE, nonfd |-> (e.how # "fdonly"), nrecv |-> 0, inbox |-> <<>>]
        /\ now' = e.now
        /\ UNCHANGED <<cfg, srv, fdi, q, owedF, owedO, oos, xvars>> /\ Acc
   ELSE IF e.api \in SimpleApis THEN
@@ -218,7 +221,9 @@ HPacket(fd, p) ==      \* leaves proc and xvars to the caller
   ELSE IF p.qid \notin DOMAIN q \/ ~SameQuestion(q[p.qid], p) THEN UNCHANGED <<cfg, now, srv, fdi, q, owedF, owedO, oos>>
   ELSE IF q[p.qid].st = "inflight" /\ q[p.qid].fd # fd THEN UNCHANGED <<cfg, now, srv, fdi, q, owedF, owedO, oos>>   \* not its current connection (C05)
   ELSE LET rec == q[p.qid] IN
-       IF rec.st # "inflight" THEN oos' = TRUE /\ UNCHANGED <<cfg, now, srv, fdi, q, owedF, owedO>>
+       \* already requeued by an earlier packet of the same processing call (its retransmission is still owed): it has
+       \* left its connection, so this packet does not belong to any transmission in flight
+       IF rec.st # "inflight" THEN UNCHANGED <<cfg, now, srv, fdi, q, owedF, owedO, oos>>
        ELSE IF p.rcode = 1 /\ rec.edns /\ (p.opt = 0 \/ rec.sentopts) THEN
             \* FORMERR to an EDNS query: resend once without EDNS to the same server, not counted as a try
             /\ q' = [q EXCEPT ![p.qid] = [rec EXCEPT !.st = "tosend", !.edns = FALSE, !.reqsrv = s]]
@@ -242,6 +247,20 @@ HPacket(fd, p) ==      \* leaves proc and xvars to the caller
                                                                     !.endrc = p.rcode]])
             /\ UNCHANGED <<cfg, now, fdi, owedF, oos>>
 
+(* Processing of the next datagram that was read: a step of its own, taken when everything the previous one made
+   immediately due (completion callback, server-state notification) has been seen and no callback is running.
+   Retransmissions it causes are not immediate: they are performed after the whole batch. *)
+NoImmediate == /\ \A id \in DOMAIN q : q[id].st # "ending"
+               /\ \A s \in DOMAIN srv : owedF[s] = 0 /\ owedO[s] = 0
+CanProcessHead(e) == /\ proc.inbox # <<>> /\ nest = 1 /\ e.e # "call" /\ NoImmediate
+                     /\ ~(e.e = "sk" /\ e.op = "recv" /\ e.fd = Head(proc.inbox).fd)   \* still reading that connection
+ProcessHead == LET p == Head(proc.inbox) IN
+               /\ HPacket(p.fd, p)
+               \* an unparsable datagram is a connection failure: whatever else was read from that connection is discarded with it
+               /\ proc' = [proc EXCEPT !.inbox = IF p.parse = 0 /\ p.len > 0 THEN SelectSeq(Tail(@), LAMBDA x : x.fd # p.fd) ELSE Tail(@),
+                                       !.nrecv = @ + 1]
+               /\ UNCHANGED xvars /\ Acc
+
 CountPacket == proc' = [proc EXCEPT !.nrecv = @ + 1]
 
 HRecv(e) ==
@@ -249,11 +268,14 @@ HRecv(e) ==
   ELSE IF e.res = "wb" THEN Skip
   ELSE IF e.res \in {"err", "eof"} THEN
        IF fdi[e.fd].tcp THEN OutOfScope
-       ELSE ConnFailure(e.fd, "ECONNREFUSED") /\ UNCHANGED <<proc, xvars>> /\ Acc
-  ELSE IF proc.nrecv >= 1 THEN OutOfScope       \* a second packet in one processing call: batch semantics not modelled
+       ELSE /\ ConnFailure(e.fd, "ECONNREFUSED")
+            /\ proc' = [proc EXCEPT !.inbox = SelectSeq(@, LAMBDA x : x.fd # e.fd)]     \* read but never processed
+            /\ UNCHANGED xvars /\ Acc
   ELSE IF ~fdi[e.fd].tcp THEN
        IF e.fromok = 0 THEN Skip                 \* wrong source address: discarded at read
-       ELSE HPacket(e.fd, e) /\ CountPacket /\ UNCHANGED xvars /\ Acc
+       ELSE \* the library first reads every waiting datagram of the connection and processes them afterwards, one by one
+            /\ proc' = [proc EXCEPT !.inbox = Append(@, e)]
+            /\ UNCHANGED <<cfg, now, srv, fdi, q, owedF, owedO, oos, xvars>> /\ Acc
   ELSE \* TCP: bytes arrive; a packet is processed once all its bytes are there
        LET st == tcpin[e.fd]
            avail == st.avail + e.n
@@ -274,8 +296,12 @@ HEnv(e) ==
 
 (* opening a connection failed: the server chosen for this attempt is demoted (notification follows) and the
    query being sent is requeued with one more try; which query it was is inferred at the notification *)
-OpenFailed == IF openfail THEN OutOfScope
-              ELSE openfail' = TRUE /\ UNCHANGED <<rvars, toks, tcpin, newtry, bad, why>>
+OpenFailed(e) ==
+  LET tcpopen == IF e.op = "open" THEN e.tcp = 1 ELSE (e.fd \in DOMAIN fdi /\ fdi[e.fd].tcp) IN
+  \* not modelled: a second failure before the first is attributed, TCP connection attempts, and failures while
+  \* several queries wait to be sent (which of them made the attempt cannot be told from the trace)
+  IF openfail \/ tcpopen \/ Cardinality({id \in DOMAIN q : q[id].st = "tosend"}) > 1 THEN OutOfScope
+  ELSE openfail' = TRUE /\ UNCHANGED <<rvars, toks, tcpin, newtry, bad, why>>
 
 HSk(e) ==
   CASE e.op = "open" ->
@@ -283,12 +309,12 @@ HSk(e) ==
               /\ fdi' = fdi @@ (e.fd :> [srv |-> 0, tcp |-> (e.tcp = 1)])
               /\ tcpin' = tcpin @@ (e.fd :> [avail |-> 0, pk |-> <<>>])
               /\ UNCHANGED <<cfg, now, srv, q, owedF, owedO, proc, oos, toks, openfail, newtry>> /\ Acc
-         ELSE OpenFailed
+         ELSE OpenFailed(e)
     [] e.op = "connect" ->
-         IF e.res = "err" THEN OpenFailed
+         IF e.res = "err" THEN OpenFailed(e)
          ELSE /\ fdi' = [fdi EXCEPT ![e.fd].srv = e.srv]
               /\ UNCHANGED <<cfg, now, srv, q, owedF, owedO, proc, oos, xvars>> /\ Acc
-    [] e.op = "getsockname" -> IF e.res = "err" THEN OpenFailed ELSE Skip
+    [] e.op = "getsockname" -> IF e.res = "err" THEN OpenFailed(e) ELSE Skip
     [] e.op \in {"opt", "bind"} -> IF e.res = "err" /\ ~(e.op = "opt" /\ e.opt = "tfo") THEN OutOfScope ELSE Skip
     [] e.op = "send" -> HSend(e)
     [] e.op = "recv" -> HRecv(e)
@@ -376,7 +402,7 @@ HRet(e) ==
   ELSE IF \E id \in DOMAIN q : q[id].st = "ending" THEN Rej("c06.completion_not_delivered")
   ELSE IF \E s \in DOMAIN srv : owedF[s] > 0 \/ owedO[s] > 0 THEN Rej("c09.server_state_notification_missing")
   ELSE IF e.api = "process" /\ proc.nonfd /\ ~NoneOverdue THEN Rej("c07.overdue_query_not_processed")
-  ELSE /\ proc' = [in |-> FALSE, nonfd |-> FALSE, nrecv |-> 0]
+  ELSE /\ proc' = [in |-> FALSE, nonfd |-> FALSE, nrecv |-> 0, inbox |-> <<>>]
        /\ UNCHANGED <<cfg, now, srv, fdi, q, owedF, owedO, oos, xvars>> /\ Acc
 
 HHint(e) ==
@@ -404,7 +430,7 @@ Handle(e) ==
 
 Verdict == [verdict |-> IF bad THEN "REJ" ELSE "ACC", id |-> hid, line |-> why.line, label |-> why.label, oos |-> oos]
 
-TInit == /\ RInit /\ toks = <<>> /\ tcpin = <<>> /\ openfail = FALSE /\ newtry = <<>>
+TInit == /\ RInit /\ toks = <<>> /\ tcpin = <<>> /\ openfail = FALSE /\ newtry = <<>> /\ nest = 0
          /\ l = 1 /\ bad = FALSE /\ why = [line |-> 0, label |-> ""] /\ hid = ""
 
 TNext ==
@@ -414,14 +440,16 @@ TNext ==
             /\ l' = l + 1
             /\ (hid # "" => PrintT(ToJson(Verdict)))
             /\ cfg' = [nsrv |-> 0] /\ now' = 0 /\ srv' = <<>> /\ fdi' = <<>> /\ q' = <<>> /\ owedF' = <<>> /\ owedO' = <<>>
-            /\ proc' = [in |-> FALSE, nonfd |-> FALSE, nrecv |-> 0] /\ oos' = FALSE
+            /\ proc' = [in |-> FALSE, nonfd |-> FALSE, nrecv |-> 0, inbox |-> <<>>] /\ oos' = FALSE
             /\ toks' = <<>> /\ tcpin' = <<>> /\ openfail' = FALSE /\ newtry' = <<>>
             /\ bad' = FALSE /\ why' = [line |-> 0, label |-> ""]
-            /\ hid' = e.id
+            /\ hid' = e.id /\ nest' = 0
        ELSE /\ hid' = hid
-            /\ IF bad \/ oos THEN Skip /\ l' = l + 1
-               ELSE IF DyingTarget(e) # 0 THEN DestroyStep(DyingTarget(e)) /\ l' = l     \* silent step, the event is judged next
-               ELSE Handle(e) /\ l' = l + 1
+            /\ IF bad \/ oos THEN Skip /\ l' = l + 1 /\ nest' = nest
+               ELSE IF CanProcessHead(e) THEN ProcessHead /\ l' = l /\ nest' = nest           \* silent step, the event is judged next
+               ELSE IF DyingTarget(e) # 0 THEN DestroyStep(DyingTarget(e)) /\ l' = l /\ nest' = nest
+               ELSE /\ Handle(e) /\ l' = l + 1
+                    /\ nest' = IF e.e = "call" THEN e.depth + 1 ELSE IF e.e = "ret" THEN e.depth ELSE nest
 
 TSpec == TInit /\ [][TNext]_tvars
 =============================================================================
